@@ -5,6 +5,40 @@ HERE = os.path.dirname(os.path.abspath(__file__))
 ROOT = os.path.dirname(HERE)
 
 CHECKS = {
+    "C01": dict(
+        text="Lean theorems: Spec `rate` (closed formula of the statement); models of the Python kinetics functions, make_dxdtf, "
+             "the librdengine marshalling and the Euler engine equal it on non-chemostated entries for all networks / spaces / "
+             "states (grid statements carry named geometry hypotheses); dimension amount/time of every returned quantity; "
+             "marshalling subscripts written = subscripts read. Tie: translator KineticsPy/IndexPy/EngineCpp + correspondence "
+             "(dstate, dxdtf, marshal, euler_step) + exact-rational oracle of the rate law on the real code.",
+        note="Lean kernel + {propext, Classical.choice, Quot.sound}; translator; correspondence harness; float rounding assumed "
+             "within 1e-9 of the magnitude of the added terms (checked on every sampled case, not proved).",
+        technique="Lean 4 proof over hand-written models + translator-generated formulas + differential correspondence",
+        design="§6 C01"),
+    "C03": dict(
+        text="Lean theorems: one step of the Euler, tau-leap (for every vector of Poisson counts) and Gillespie (for every draw) "
+             "engine models leaves every flagged entry unchanged, hence by induction every state after any number of steps; the flag "
+             "consulted for (species s, cell i) is chem[s*n+i] on the Python side and, after the species-major to cell-major "
+             "transposition, on the C++ side (generated index formulas); flagged entries have derivative exactly 0 in the kinetics "
+             "model and in make_dxdtf and are skipped by apply_reaction; rates and propensities of other entries do not depend on "
+             "the flags. Tie: translator (chemostat test text, get_chemostat/get_state_index, subscript inventory) + correspondence "
+             "(dstate, dxdtf, apply_reaction, euler/tau-leap/Gillespie step replay) + oracle on real trajectories of all engines.",
+        note="Lean kernel + {propext, Classical.choice, Quot.sound}; translator; correspondence harness; flags assumed 0/1.",
+        technique="Lean 4 proof over hand-written models + translator-generated formulas + differential correspondence",
+        design="§6 C03"),
+    "C04": dict(
+        text="Lean theorems: model of units inheritance (inherit / default / explicit, script -> system -> network / space -> "
+             "species / reaction / node / edge) and of process_unitvar_input; re-scaling the bare numbers of a level together with "
+             "its declaration, or replacing them by explicit quantities, builds the same SI system (hence the same state, rate and "
+             "trajectory); explicit quantities ignore the surrounding system; the rate law is homogeneous of dimension amount/time "
+             "under any change of units (dim k = (3n-3,-1,1-n)); an Euler step commutes with unit conversion and so does a "
+             "trajectory of any fixed number of steps; output units only scale. Tie: translator (Units tables, k dimensions, "
+             "marshalling) + correspondence `build_system` on both members of random pairs (d, rescale σ d) + pairwise oracle on "
+             "the real code (state, chemostats, rate, Euler trajectory in SI).",
+        note="Lean kernel + {propext, Classical.choice, Quot.sound}; translator; correspondence harness; float rounding assumed "
+             "within 1e-9 (checked on every sampled pair, not proved).",
+        technique="Lean 4 proof over hand-written models + translator-generated tables + differential / metamorphic correspondence",
+        design="§6 C04"),
     "C05": dict(
         text="Lean theorems: the model of every UnitValue / UnitArray operator method (forward and reflected, _neg/_inv, **, "
              "comparisons, Python's dispatch) is a homomorphism onto exact arithmetic on SI values and dimension vectors for all "
